@@ -11,6 +11,7 @@ import (
 	"sort"
 	"strconv"
 	"strings"
+	"sync"
 
 	"kverif/internal/load"
 	"kverif/internal/report"
@@ -219,34 +220,70 @@ func overlayFromPatch(repo, patch string) (map[string][]byte, error) {
 
 // runControls runs every seeded change of the property as a positive control, each in its own process.
 func runControls(home, prop string) map[string]any {
+	type res struct{ name, line string }
+	run := func(dirs []string) []res {
+		out := make([]res, len(dirs))
+		sem := make(chan struct{}, 6)
+		var wg sync.WaitGroup
+		for i, d := range dirs {
+			patch := filepath.Join(d, "patch.diff")
+			if _, err := os.Stat(patch); err != nil {
+				continue
+			}
+			wg.Add(1)
+			go func(i int, d, patch string) {
+				defer wg.Done()
+				sem <- struct{}{}
+				defer func() { <-sem }()
+				cmd := exec.Command(os.Args[0], prop, "--control", patch)
+				cmd.Env = os.Environ()
+				o, _ := cmd.CombinedOutput()
+				line := strings.TrimSpace(string(o))
+				if k := strings.LastIndex(line, "CONTROL "); k >= 0 {
+					line = line[k:]
+				}
+				out[i] = res{filepath.Base(d), line}
+			}(i, d, patch)
+		}
+		wg.Wait()
+		return out
+	}
 	dirs, _ := filepath.Glob(filepath.Join(home, "seeded", prop+"-*"))
 	sort.Strings(dirs)
 	var fired, missed, stale []string
-	for _, d := range dirs {
-		patch := filepath.Join(d, "patch.diff")
-		if _, err := os.Stat(patch); err != nil {
-			continue
-		}
-		cmd := exec.Command(os.Args[0], prop, "--control", patch)
-		cmd.Env = os.Environ()
-		out, _ := cmd.CombinedOutput()
-		line := strings.TrimSpace(string(out))
-		if i := strings.LastIndex(line, "CONTROL "); i >= 0 {
-			line = line[i:]
-		}
-		name := filepath.Base(d)
+	for _, r := range run(dirs) {
 		switch {
-		case strings.HasPrefix(line, "CONTROL fired"):
-			fired = append(fired, name+": "+truncate(line, 300))
-		case strings.HasPrefix(line, "CONTROL missed"):
-			missed = append(missed, name)
-			fmt.Printf("CONTROL-MISSED property=%s seed=%s (the seeded change applies to the current tree but no rule fires)\n", prop, name)
+		case r.name == "":
+		case strings.HasPrefix(r.line, "CONTROL fired"):
+			fired = append(fired, r.name+": "+truncate(r.line, 300))
+		case strings.HasPrefix(r.line, "CONTROL missed"):
+			missed = append(missed, r.name)
+			fmt.Printf("CONTROL-MISSED property=%s seed=%s (the seeded change applies to the current tree but no rule fires)\n", prop, r.name)
 		default:
-			stale = append(stale, name+": "+truncate(line, 200))
+			stale = append(stale, r.name+": "+truncate(r.line, 200))
 		}
 	}
 	fmt.Printf("positive controls for %s: %d fired, %d missed, %d stale\n", prop, len(fired), len(missed), len(stale))
-	return map[string]any{"fired": fired, "missed": missed, "stale": stale, "how": "each seeded change under /verif/seeded is applied as a go/packages overlay (no write into /repo, no execution) in a separate process and the property's rules are re-run; a control that no longer applies to the current tree is stale, not a failure"}
+	// negative controls: behaviour-preserving refactorings of the anchored code must leave every rule silent
+	ndirs, _ := filepath.Glob(filepath.Join(home, "benign", prop+"-*"))
+	sort.Strings(ndirs)
+	var silent, alarms, nstale []string
+	for _, r := range run(ndirs) {
+		switch {
+		case r.name == "":
+		case strings.HasPrefix(r.line, "CONTROL missed"):
+			silent = append(silent, r.name)
+		case strings.HasPrefix(r.line, "CONTROL fired"):
+			alarms = append(alarms, r.name+": "+truncate(r.line, 300))
+			fmt.Printf("NEGATIVE-CONTROL-ALARM property=%s refactoring=%s (a behaviour-preserving refactoring makes a rule fire: false alarm of the machinery) %s\n", prop, r.name, truncate(r.line, 300))
+		default:
+			nstale = append(nstale, r.name+": "+truncate(r.line, 200))
+		}
+	}
+	fmt.Printf("negative controls for %s: %d silent, %d false alarms, %d stale\n", prop, len(silent), len(alarms), len(nstale))
+	return map[string]any{"fired": fired, "missed": missed, "stale": stale,
+		"negative_silent": silent, "negative_false_alarms": alarms, "negative_stale": nstale,
+		"how": "each seeded change under /verif/seeded (must fire) and each behaviour-preserving refactoring under /verif/benign (must stay silent) is applied as a go/packages overlay (no write into /repo, no execution) in a separate process and the property's rules are re-run; a control that no longer applies to the current tree is stale, not a failure"}
 }
 
 func truncate(s string, n int) string {
